@@ -38,3 +38,24 @@ Proof. apply reset_initial. reflexivity. Qed.
 Example ex_transparent_skipped :
   vm_paint (mkVM (fun _ => mkRGBA 0 0 0 0) (fun _ => 0) 0 0 0 2139095040 (fun _ => mkRGBA 0 0 0 0)) 0 8 = VSkip.
 Proof. vm_compute. reflexivity. Qed.
+
+(* ---- tie to the source: the Renderer's selector and level-of-detail setters of render/render.go, translated from
+   /repo's working tree by harness/gosrc.go on every run (gen/GoSrc.v; the receiver's fields are parameters),
+   compute what the model's step does to those fields. ---- *)
+From IVG Require Import GoSem GoSrc GenEqRender.
+
+Theorem code_SetCSel : forall arc (s : rstate f32) v,
+  r_csel (rstep N32 arc s (CSetCSel v)) = go_render_Renderer_SetCSel (r_csel s) v.
+Proof. exact GenEqRender.go_SetCSel_eq. Qed.
+Print Assumptions code_SetCSel.
+
+Theorem code_SetNSel : forall arc (s : rstate f32) v,
+  r_nsel (rstep N32 arc s (CSetNSel v)) = go_render_Renderer_SetNSel (r_nsel s) v.
+Proof. exact GenEqRender.go_SetNSel_eq. Qed.
+Print Assumptions code_SetNSel.
+
+Theorem code_SetLOD : forall arc (s : rstate f32) a b,
+  (r_lod0 (rstep N32 arc s (CSetLOD a b)), r_lod1 (rstep N32 arc s (CSetLOD a b))) =
+  go_render_Renderer_SetLOD (r_lod0 s) (r_lod1 s) a b.
+Proof. exact GenEqRender.go_SetLOD_eq. Qed.
+Print Assumptions code_SetLOD.
